@@ -77,18 +77,18 @@ func judgeGram(c *gramCase, o gramObs) (why, shape string) {
 	if o.Log == "" {
 		return "rejected without a diagnostic", "no-diagnostic"
 	}
-	have := map[int]bool{}
+	have := map[int]int{}
 	for _, l := range lines {
 		m := diagRe.FindStringSubmatch(l)
 		if m == nil {
 			return "diagnostic line not of the form 'line L:C: error...': " + l, "diag-form"
 		}
 		n, _ := strconv.Atoi(m[1])
-		have[n] = true
+		have[n]++
 	}
-	for _, l := range c.Must {
-		if !have[l] {
-			return fmt.Sprintf("the broken statement on line %d got no diagnostic of its own", l), "recovery"
+	for i, min := range c.Must {
+		if have[i+1] < min {
+			return fmt.Sprintf("line %d carries %d diagnostic(s); %d broken statement(s) must be reported there (a later broken statement got no diagnostic of its own)", i+1, have[i+1], min), "recovery"
 		}
 	}
 	return "", ""
